@@ -792,7 +792,18 @@ func soloConfirm(self string, w workerArgs, idx int, why, errTail, logDir string
 			if json.Unmarshal([]byte(rest[sp+1:]), &r) == nil && err == nil {
 				// The case completes alone: the death in the batch is not reproducible.
 				r.Inconcl++
-				r.Viol = append(r.Viol, Violation{Class: "harness-unreproducible-death", Detail: fmt.Sprintf("case %d: %s; solo re-run completed\n%s", idx, why, errTail)})
+				class := "harness-unreproducible-death"
+				crashed := false
+				for _, m := range []string{"fatal error:", "panic:", "goroutine ", "WARNING: DATA RACE", "SIGQUIT"} {
+					crashed = crashed || strings.Contains(errTail, m)
+				}
+				if !crashed && strings.HasPrefix(why, "worker died") {
+					// the worker process went away without a word on stderr (no Go panic, no fatal error, no race report:
+					// those always leave a trace) and the case completes alone: a hiccup of the environment, tolerated in
+					// small numbers like the other tooling flakes
+					class = "harness-flake"
+				}
+				r.Viol = append(r.Viol, Violation{Class: class, Detail: fmt.Sprintf("case %d: %s; solo re-run completed\n%s", idx, why, errTail)})
 				return &r
 			}
 		}
